@@ -117,7 +117,7 @@ class HistorySystem(System):
     def __init__(self, tier):
         super().__init__(tier)
         self.k = 2 if tier == "quick" else 3
-        self.ops = [o for o in OPS if tier != "quick" or o not in ("rst-plain-role", "headings2", "cfg-anchors", "html-img", "plain-dmath", "subst2")]
+        self.ops = [o for o in OPS if tier != "quick" or o not in ("headings2", "cfg-anchors", "html-img", "plain-dmath", "subst2")]
         self.description = (f"all histories of <= {self.k} parse calls over {len(self.ops)} operations (include with and without MyST-only options, eval-rst include with and without them, "
                             "default-role, > 256 inventory wildcard patterns and case variants, cyclic / failing substitutions, front-matter overrides of set- and dict-valued options, "
                             "duplicate slugs, unclosed HTML, differing configurations), one freshly forked process per history")
@@ -469,5 +469,88 @@ class ScheduleSystem(System):
                    nontrivial=chunks is None or len(chunks) >= 2, violations=viol, stats={"worker_forks": len(FORKS)})
 
 
+REUSE_DOCS = {
+    "headings": "# Usage\n\n## Usage\n\n[](#usage-1)\n",
+    "headings-again": "# Usage\n\n[](#usage) [](#usage-1)\n",
+    "footnotes": "a[^x] b[^y]\n\n[^y]: Y\n\n[^x]: X\n",
+    "refdef": "[r]: http://d\n\n[x][r]\n",
+    "refdef-use": "[x][r] and c[^x]\n",
+    "fm": "---\nmyst:\n  heading_anchors: 0\n  enable_extensions: [dollarmath]\nsubstitutions:\n  k: v\n---\n# Usage\n\n$x$ {{k}}\n",
+    "plain": "# Other\n\n$x$ {{k}} ~~s~~\n",
+    "include": "```{include} inc.md\n:heading-offset: 1\n```\n\n# After\n",
+}
+
+
+class ParserReuseSystem(System):
+    """ONE parser object (create_md_parser) renders several documents one after the other: each must come out as from a fresh parser"""
+
+    name = "parser-reuse"
+    fork_per_case = True
+    chunk = 1
+
+    def __init__(self, tier):
+        super().__init__(tier)
+        self.k = 2 if tier == "quick" else 3
+        self.description = (f"every sequence of <= {self.k} of {len(REUSE_DOCS)} documents rendered by one markdown-it parser object with its DocutilsRenderer "
+                            "(heading slugs, footnotes, reference definitions, front matter, include): compared with a fresh parser object per document")
+
+    def prepare(self, ctx):
+        self.dir = ctx.scratch / "c15reuse"
+        self.dir.mkdir(exist_ok=True)
+        (self.dir / "inc.md").write_text("# Inc\n\n## Usage\n\npara [^f]\n\n[^f]: foot\n")
+
+    def bounds(self):
+        return {"depth": self.k, "documents": len(REUSE_DOCS)}
+
+    def rule(self):
+        return "one case = one sequence (fresh process); transitions = render calls; non-trivial = length >= 2"
+
+    def cases(self):
+        for k in range(1, self.k + 1):
+            for h in itertools.product(list(REUSE_DOCS), repeat=k):
+                yield list(h)
+
+    def render_with(self, md, name):
+        from docutils.utils import new_document
+
+        from myst_parser.parsers.docutils_ import Parser
+        from docutils.frontend import get_default_settings
+
+        st = get_default_settings(Parser)
+        ws = io.StringIO()
+        st.warning_stream, st.report_level, st.halt_level, st.file_insertion_enabled = ws, 2, 5, True
+        doc = new_document(str(self.dir / "x.md"), st)
+        md.options["document"] = doc
+        try:
+            md.render(REUSE_DOCS[name])
+        except BaseException as exc:
+            return "EXC " + repr(exc)
+        slugs = sorted(getattr(doc, "myst_slugs", {}))
+        return doc.pformat() + "\n" + ws.getvalue() + "\nslugs=" + repr(slugs)
+
+    def make(self):
+        from myst_parser.config.main import MdParserConfig
+        from myst_parser.mdit_to_docutils.base import DocutilsRenderer
+        from myst_parser.parsers.mdit import create_md_parser
+
+        return create_md_parser(MdParserConfig(heading_anchors=2, enable_extensions=["substitution", "strikethrough"], substitutions={"k": "global"}), DocutilsRenderer)
+
+    def run(self, hist):
+        md = self.make()
+        viol, dig = [], []
+        for pos, name in enumerate(hist):
+            got = self.render_with(md, name)
+            fresh = self.render_with(self.make(), name)
+            dig.append(hash(got) % 100000)
+            if got != fresh:
+                import difflib
+
+                diff = "\n".join(difflib.unified_diff(fresh.splitlines(), got.splitlines(), "fresh parser", "reused parser", lineterm="", n=1))[:1500]
+                viol.append(violation("history", {"clause": "parser-reuse", "affected": name, "after": hist[pos - 1] if pos else None},
+                                      f"document {name!r} rendered at position {pos} of {hist} by a reused parser object differs from a fresh parser object", history=hist, diff=diff))
+                break
+        return Obs(digest=(tuple(hist), tuple(dig)), nontrivial=len(hist) >= 2, violations=viol, transitions=len(hist), validated=len(hist))
+
+
 def systems(tier):
-    return [HistorySystem(tier), SphinxHistorySystem(tier), ScheduleSystem(tier)]
+    return [HistorySystem(tier), ParserReuseSystem(tier), SphinxHistorySystem(tier), ScheduleSystem(tier)]
